@@ -146,6 +146,9 @@ def run(prop, tier, seed):
             if r is not None:
                 prop_out[i] = r
     failures, known_hits, skipped = [], {}, 0
+    # a known finding is a defect of the pinned code that the model reproduces: a failing case on which model and
+    # implementation DISAGREE is never explained by one (something else changed the behaviour there)
+    mismatch_lines = {d["case"] for d in disagreements if d.get("case")}
     for c, o in zip(prop_cases, prop_out):
         if o == "OK" or o.startswith("OK "):
             continue
@@ -153,6 +156,9 @@ def run(prop, tier, seed):
             skipped += 1
             continue
         fid = prop.known(c, o, findings)
+        if fid and c.line in mismatch_lines:
+            fid = None
+            o = o + f" [would match a known finding, but model and implementation disagree on this case]"
         if fid:
             known_hits.setdefault(fid, []).append(c.line)
         else:
@@ -199,7 +205,7 @@ def run(prop, tier, seed):
         for c, o in zip(extra, outs):
             if o.startswith("OK") or o.startswith("SKIP"):
                 continue
-            if prop.known(c, o, findings):
+            if _explained(prop, c, o, findings):
                 continue
             found = (c, o)
             break
@@ -270,11 +276,24 @@ def _prop_all(prop, cases):
     return outs
 
 
+def _explained(prop, case, o, findings):
+    """the known finding that explains failure `o` of `case`, or None. A case on which model and implementation disagree is
+    never explained by a known finding (known findings are defects the model reproduces)."""
+    fid = prop.known(case, o, findings)
+    if fid and case.corr:
+        try:
+            if core.run_impl([case.line])[0] != core.run_model([case.line])[0]:
+                return None
+        except Exception:
+            pass
+    return fid
+
+
 def _still_fails(prop, case, findings):
     o = _prop_all(prop, [case])[0]
     if o.startswith("OK") or o.startswith("SKIP"):
         return False
-    return prop.known(case, o, findings) is None
+    return _explained(prop, case, o, findings) is None
 
 
 def replay(prop, path):
